@@ -10,7 +10,7 @@ use log::{Level, LevelFilter, Metadata, Record};
 use std::{
     fmt::{Debug, Display},
     io::{stdout, Write},
-    path::{Path, PathBuf},
+    path::{Component, Path, PathBuf},
     rc::Rc,
     sync::Mutex,
     thread,
@@ -150,6 +150,21 @@ impl log::Log for GlobalLogger {
 
 static LOGGER: GlobalLogger = GlobalLogger::new();
 
+/// A module is known by the spelling of its path, and imports spell theirs without `.` components
+/// (`import ./lib` is `import lib`): the file named on the command line is spelled the same way, so
+/// that `execute ./main.mmm` and an `import main` in one of its modules name one module.
+fn spelled_like_an_import(path: &str) -> String {
+    let cleaned: PathBuf = Path::new(path)
+        .components()
+        .filter(|component| *component != Component::CurDir)
+        .collect();
+
+    match cleaned.to_str() {
+        Some(cleaned) if !cleaned.is_empty() => cleaned.to_owned(),
+        _ => path.to_owned(),
+    }
+}
+
 fn main() -> Result<()> {
     let args = Args::parse();
 
@@ -177,6 +192,8 @@ fn main() -> Result<()> {
             let builder = thread::Builder::new()
                 .name("mscript-runtime".into())
                 .stack_size(stack_size);
+
+            let path = spelled_like_an_import(&path);
 
             let main_thread = builder.spawn(move || -> Result<(Result<()>, Option<Instant>)> {
                 let Some(product) = compile(&path, true, !quick, false, override_no_pb)? else {
@@ -267,6 +284,8 @@ fn main() -> Result<()> {
                 .name("mscript-runtime".into())
                 .stack_size(stack_size);
 
+            let path = spelled_like_an_import(&path);
+
             let main_thread = builder.spawn(move || -> Result<()> {
                 let program = if transpile_first {
                     println!("=======================\n");
@@ -303,7 +322,7 @@ fn main() -> Result<()> {
             };
 
             let output_bin = matches!(output_format, CompilationTargets::Binary);
-            compile(&path, output_bin, !quick, true, false)?;
+            compile(&spelled_like_an_import(&path), output_bin, !quick, true, false)?;
         }
         Commands::Clean { path } => {
             clean_command(&path)?;
